@@ -128,6 +128,11 @@ EAGER_ONLY = ["C01_OutcomeAtRest", "C02_QuiescentOk", "C08_OthersNotStuck"]
 STEP_PROPS = ["C03_NoEarlyStartStep", "C08_NoStartAfterCancelSeenStep", "C06_NoStartAfterGiveBackStep", "C06_StartedIsRealStep"]
 
 
+# temporal liveness (spec/HQLive.tla): instance -> tier from which it is checked
+LIVE = {"C": "quick", "N2": "quick", "B": "thorough", "R": "thorough"}
+LIVE_PROPS = ["L_ComesToRest", "L_RetractResolves", "L_AssignedMoves"]
+
+
 def tla_set(xs):
     return "{" + ", ".join(str(x) for x in xs) + "}"
 
@@ -194,6 +199,17 @@ def generate():
             open(os.path.join(SPEC, f"MC_HQ_{name}_{mode}.cfg"), "w").write(cfg_text(name, inst, mode))
         open(os.path.join(SPEC, f"MC_HQSim_{name}.cfg"), "w").write(cfg_text(name, inst, "any", spec="SimSpec").replace(
             "INVARIANTS\n", "INVARIANTS\n") )
+    for f in os.listdir(SPEC):
+        if re.match(r"HQLive_\w+\.cfg$", f):
+            os.remove(os.path.join(SPEC, f))
+    for name, tier in LIVE.items():
+        inst = INSTANCES[name]
+        mode = "eager" if "eager" in inst["modes"] else "any"
+        base = cfg_text(name, inst, mode, spec="FairSpec", extra_inv=()).split("INVARIANTS")[0]
+        open(os.path.join(SPEC, f"HQLive_{name}.cfg"), "w").write(base + "PROPERTIES\n" + "".join(f"  {p}\n" for p in LIVE_PROPS))
+    # anti-vacuity: without fairness the same property must be refuted (the behaviour that simply stops with work in flight)
+    c = cfg_text("C", INSTANCES["C"], "eager", spec="Spec").split("INVARIANTS")[0]
+    open(os.path.join(SPEC, "HQLive_unfair.cfg"), "w").write(c + "PROPERTIES\n  L_ComesToRest\n")
 
 
 def profile_of(name):
@@ -284,6 +300,24 @@ def model_check(tier):
         for mode in inst["modes"]:
             res.append(model_check_one(name, mode))
     return res
+
+
+def liveness_check(tier):
+    """TLC temporal checking of spec/HQLive.tla under weak fairness of the system's own steps (cached like model_check)."""
+    deps = ["HQ.tla", "HQModel.tla", "MC_HQ.tla"]
+    res = [common.model_check_cached("HQLive.tla", f"HQLive_{n}.cfg", deps, workers=6, timeout=3 * 3600)
+           for n, t in LIVE.items() if t == "quick" or tier == "thorough"]
+    for r in res:
+        r["properties"] = LIVE_PROPS
+        r["fairness"] = "WF_mvars(SystemStep)"
+    work = common.scratch()
+    try:
+        out = common.tlc("HQLive.tla", "HQLive_unfair.cfg", work, workers=4, timeout=900, deque=False)
+    finally:
+        shutil.rmtree(work, ignore_errors=True)
+    if not re.search(r"Temporal propert(?:y L_ComesToRest was|ies were) violated", out):
+        raise common.ToolError("L_ComesToRest is not refuted without fairness (HQLive_unfair.cfg): the liveness check is vacuous\n" + out[-2000:])
+    return res, True
 
 
 LAST_ACT = re.compile(r"^/\\ lastAct = (\[.*\])\s*$", re.M)
